@@ -89,8 +89,9 @@ def invalidations(unit, env, val, path=()):
                     n = int(ref)
                     if n > 0:
                         yield (f"len({name})={n - 1}", here, tuple(cur[: n - 1]))
-                    if cur:
-                        yield (f"len({name})={n + 1}", here, tuple(cur) + (cur[0],))
+                    extra = cur[0] if cur else (values.scalar_domain(t, None, env, small=True) or (None,))[0]
+                    if extra is not None:
+                        yield (f"len({name})={n + 1}", here, tuple(cur) + (extra,))
                 elif ref is not None:
                     ln = scope[ref]
                     if ln.get("type") in ("byte", "char") and t.kind in ("int", "bool", "enum"):
